@@ -29,6 +29,10 @@ FORBIDDEN = re.compile(r"\bsorry\b|\badmit\b|^\s*axiom\s|native_decide|bv_decide
 # per property: harness budget (seconds, max cases) per tier
 CONF = {
     "default": {"quick": (45, 600), "thorough": (420, 12000)},
+    # C15: one case = one signature shape with its WHOLE single-character edit neighbourhood (thousands of strings),
+    # slow on a cold machine; the quick tier is bounded by the number of shapes, not by the clock, so that every run
+    # - warm or freshly restored - does the same work (the 468 shapes are all covered when the budget is widened)
+    "C15": {"quick": (180, 120), "thorough": (420, 12000)},
 }
 
 TRUSTED_BASE = [
